@@ -354,7 +354,10 @@ impl WorldC {
                     };
                     let s = ctx.ch.index(self.servers.len());
                     let node = self.clients[c].node;
-                    let n = input.len().min(self.io_buf.len());
+                    if self.io_buf.len() < input.len() {
+                        self.io_buf.resize(input.len(), 0);
+                    }
+                    let n = input.len();
                     self.io_buf[..n].copy_from_slice(&input[..n]);
                     let (p, r) = if let Some(th) = self.client_threads.as_mut() {
                         // the client's own OS thread, with 256 bytes of the client's entropy stream
